@@ -26,6 +26,9 @@ MUTANTS = [
     M('lex:extend_literal:unterminated-str-silent', 'lex', ['C11'], 'extend_literal_func', 'oq3_lexer::LiteralKind::Str { terminated } => {\n            if !terminated {', 'oq3_lexer::LiteralKind::Str { terminated } => {\n            if false {'),
     M('lex:block_comment:depth-underflow', 'lex', ['C01', 'C14'], "Cursor<'_>::block_comment", 'let mut depth = 1usize;', 'let mut depth = 0usize;'),
     M('lex:advance_token:no-reset', 'lex', ['C14'], "Cursor<'_>::advance_token", '        self.reset_pos_within_token();\n', ''),
+    M('lex:number:upper-E-dropped', 'lex', ['C15', 'C11'], "Cursor<'_>::number", "                        'e' | 'E' => {\n                            self.bump();\n                            empty_exponent", "                        'e' => {\n                            self.bump();\n                            empty_exponent"),
+    M('lex:exponent:sign-counts-as-digits', 'lex', ['C11'], "Cursor<'_>::eat_float_exponent", '        self.eat_decimal_digits()\n', '        let before = self.pos_within_token(); self.eat_decimal_digits(); self.pos_within_token() > before\n'),
+    M('lex:digits:underscore-counts', 'lex', ['C11', 'C15'], "Cursor<'_>::eat_decimal_digits", "'_' => {\n                    self.bump();", "'_' => {\n                    has_digits = true;\n                    self.bump();"),
     # ---- PARSER
     M('parser:expr_bp:bp-overflow', 'parser', ['C01'], 'expr_bp', 'Associativity::Left => op_bp + 1,', 'Associativity::Left => op_bp + 250,'),
     M('parser:current_op:plus-bp', 'parser', ['C05'], 'current_op', '(10, T![+],   Left)', '(11, T![+],   Left)'),
@@ -48,5 +51,11 @@ MUTANTS = [
     M('sema:if-new:drop-then', 'sema', ['C06'], 'If::new', 'then_branch,\n', 'then_branch: Block::new(Vec::new()),\n'),
     M('sema:lookup_identifier:new-unwrap-site', 'sema', ['C03'], 'lookup_identifier', 'let name_str = identifier.string();', 'let name_str = identifier.string(); let _x: u32 = None::<u32>.unwrap();'),
     M('sema:designator:drop-error', 'sema', ['C09'], 'designator_to_asg', 'context.insert_error(ConstIntegerError, literal);', ''),
+    M('sema:decl:literal-error-dropped', 'sema', ['C08'], 'classical_declaration_statement_to_asg_stmt', '                context.insert_error(IncompatibleTypesError, type_decl);\n                return declare_classical_helper(symbol_id, Some(initializer), context);', '                return declare_classical_helper(symbol_id, Some(initializer), context);'),
+    M('sema:decl:bind-before-initializer', 'sema', ['C07'], 'classical_declaration_statement_to_asg_stmt', '    let initializer = expr_to_asg_texpr(type_decl.expr(), context);\n    let symbol_id = context.new_binding(name_str.as_ref(), &lhs_type, type_decl);', '    let symbol_id = context.new_binding(name_str.as_ref(), &lhs_type, type_decl);\n    let initializer = expr_to_asg_texpr(type_decl.expr(), context);'),
+    M('sema:assign:no-mutate-const-error', 'sema', ['C13', 'C08'], 'assignment_stmt_to_asg_stmt', 'context.insert_error(MutateConstError, assignment_stmt);', ''),
+    M('sema:assign:cast-dropped', 'sema', ['C08'], 'assignment_stmt_to_asg_stmt', 'expr = asg::Cast::new(expr, promoted_type).to_texpr()', 'expr = expr'),
+    M('sema:binexpr:quantum-left-unreported', 'sema', ['C13'], 'expr_to_asg_texpr', 'context.insert_error(IncompatibleTypesError, &bin_expr.lhs().unwrap());', ''),
+    M('sema:return:always-reported', 'sema', ['C13'], 'expr_to_asg_texpr', 'if context.symbol_table().current_scope_type() == ScopeType::Global {', 'if true {'),
     M('sema:new_texpr_with_cast:no-cast-left', 'sema', ['C08'], 'BinaryExpr::new_texpr_with_cast', 'Cast::new(left, promoted_type.clone()).to_texpr()', 'left'),
 ]
